@@ -94,6 +94,8 @@ func (s *regState) project() map[string]any {
 		kind := map[int]string{handlers.LISTENER_HTTP: "http", handlers.LISTENER_PIVOT_SMB: "smb", handlers.LISTENER_EXTERNAL: "ext", handlers.LISTENER_SERVICE: "svc"}[l.Type]
 		if _, ok := run[l.Name]; ok {
 			run[l.Name] = kind
+		} else if s.crowdHidden(l.Name) {
+			continue
 		} else {
 			extras = append(extras, l.Name) // service external-C2 listeners live in the same list
 		}
@@ -108,7 +110,7 @@ func (s *regState) project() map[string]any {
 	advSeen := map[string]bool{}
 	for _, e := range t.EventsList {
 		if e.Head.Event == packager.Type.Listener.Type && e.Body.SubEvent == packager.Type.Listener.Add {
-			if n, _ := e.Body.Info["Name"].(string); n != "" && n != "ext" && !advSeen[n] {
+			if n, _ := e.Body.Info["Name"].(string); n != "" && n != "ext" && !advSeen[n] && !strings.HasPrefix(n, "crowd-") {
 				advSeen[n] = true
 				adv = append(adv, n)
 			}
@@ -136,7 +138,7 @@ func (s *regState) project() map[string]any {
 	}
 	eps := []string{}
 	for _, e := range t.Endpoints {
-		if e.Endpoint != "ext" {
+		if e.Endpoint != "ext" && !s.crowdHidden(strings.TrimPrefix(e.Endpoint, "/")) {
 			eps = append(eps, strings.TrimPrefix(e.Endpoint, "/")) // "/n2-ep" and "n2-ep" are one endpoint
 		}
 	}
@@ -148,6 +150,16 @@ func (s *regState) project() map[string]any {
 		nconn = t.Service.VerifClients()
 	}
 	return map[string]any{"run": run, "dupl": dupl, "db": db, "adv": adv, "port": port, "agents": agents, "lsts": lsts, "eps": eps, "exc2": extras, "nconn": nconn}
+}
+
+// crowdHidden: the endpoints and listeners a connection brought along in a crowd ("crowd-<connection>-<k>") stand behind the one item the
+// specification knows; they are left out of what is observed while their connection is there, and show like anything else once it is gone
+func (s *regState) crowdHidden(name string) bool {
+	if !strings.HasPrefix(name, "crowd-") {
+		return false
+	}
+	parts := strings.SplitN(name, "-", 3)
+	return len(parts) == 3 && s.sc[parts[1]] != nil
 }
 
 func (s *regState) svcSend(c string, v any) {
@@ -179,10 +191,13 @@ func RunRegistry(behs [][]Step, tr *Trace, env Env, sum *Summary) {
 				}
 			}()
 			tr.Emit(map[string]any{"ev": "Reset"})
-			hasRestart := false
+			hasRestart, together := false, false
 			for _, st := range beh {
 				if st.Str("op") == "Restart" {
 					hasRestart = true
+				}
+				if st.Str("op") == "SvcLeaveTogether" {
+					together = true
 				}
 			}
 			for si, st := range beh {
@@ -377,6 +392,18 @@ func RunRegistry(behs [][]Step, tr *Trace, env Env, sum *Summary) {
 						s.svcSend(a, map[string]any{"Head": map[string]any{"Type": "Listener"}, "Body": map[string]any{"Type": "ListenerAdd", "Listener": map[string]any{"Name": x, "Agent": "any", "Items": []any{}}}})
 					case "exc2":
 						s.svcSend(a, map[string]any{"Head": map[string]any{"Type": "Listener", "RequestID": "r1"}, "Body": map[string]any{"Type": "ListenerAddExC2", "Name": x, "Endpoint": epSpelling(x) + x + "-ep"}})
+						if together {
+							// connections that leave together have much to take with them: the item stands for a crowd of endpoints
+							had := len(w.TS.Endpoints)
+							for k := 0; k < 300; k++ {
+								n := fmt.Sprintf("crowd-%s-%d", a, k)
+								s.svcSend(a, map[string]any{"Head": map[string]any{"Type": "Listener", "RequestID": "r1"}, "Body": map[string]any{"Type": "ListenerAddExC2", "Name": n, "Endpoint": n}})
+							}
+							for i := 0; i < 400 && len(w.TS.Endpoints) < had+300; i++ {
+								time.Sleep(5 * time.Millisecond)
+							}
+							sum.Counters["crowds of 300 endpoints"]++
+						}
 					}
 					time.Sleep(80 * time.Millisecond)
 					ok = fmt.Sprint(s.project()) != before
